@@ -37,8 +37,11 @@ def run(rep, tier):
         backends.append("dylib")
     dbs = facts.load_core(backends, ["INVOKE"], thorough=(tier == "thorough"))
     n = {"move": 0, "assign": 0, "release": 0, "register": 0, "unregister": 0, "refuse": 0, "unique": 0}
+    styles = []
     for db in dbs:
         rep.units.append(db.label)
+        style = {}
+        styles.append((db.label, style))
         for r in db.records:
             if r["n"] == CB and not r["dep"]:
                 inst = "%s | %s" % (db.label, r["n_full"][:120])
@@ -72,14 +75,20 @@ def run(rep, tier):
                 owners.check_release(rep, "C13", db, f, inst, lambda e: e.kind == "CALL" and q.short(e.a) == "impl_unregister_callback", "callback", owners.field_names(rec))
                 n["release"] += 1
             elif nm == SB + "::register_callback" and len(f["params"]) == 1 and "func_ptr" == f["params"][0]["n"]:
-                check_register(rep, db, f, inst)
+                check_register(rep, db, f, inst, style)
                 n["register"] += 1
             elif nm == SB + "::unregister_callback":
-                check_unregister(rep, db, f, inst)
+                check_unregister(rep, db, f, inst, style)
                 n["unregister"] += 1
             elif f["sn"] == "impl_register_callback" and not db.label.startswith("model32"):
                 check_refuse(rep, db, f, inst)
                 n["refuse"] += 1
+    for label, style in styles:
+        if style.get("search") == "ordered" and style.get("removal") == "unordered":
+            rep.violation("R-C13-register", SB + "::unregister_callback [ordered search]", "register_callback's duplicate test is a binary search over callback_keys, but unregister_callback removes keys by swapping with the last "
+                          "element: the order the search relies on is destroyed and a registered function can be registered a second time", style.get("removal_loc", ""), label)
+        elif style.get("search") and style.get("removal"):
+            rep.ok("R-C13-register", SB + " [search/removal agreement]", "duplicate search '%s' is compatible with removal '%s'" % (style["search"], style["removal"]), label)
     floors = {"move": 6, "assign": 3, "release": 6, "register": 6, "unregister": 3, "refuse": 4, "unique": 3}
     for k, v in floors.items():
         rep.require(n[k] >= v, "only %d instances for rule group '%s' (floor %d)" % (n[k], k, v))
@@ -88,7 +97,7 @@ def run(rep, tier):
                         "third-party backends may legitimately return representation 0 for a trampoline; the refusal rule is therefore checked in the bundled backends"]
 
 
-def check_register(rep, db, f, inst):
+def check_register(rep, db, f, inst, style):
     rule = "R-C13-register"
     try:
         ps = q.paths(db, f)
@@ -108,6 +117,18 @@ def check_register(rep, db, f, inst):
         locks = [i for i, e in enumerate(evs) if e.kind == "CALL" and q.short(e.a) in ("lock_guard", "unique_lock") and "callback_lock" in " ".join(fmt(a) for a in e.b)]
         unlocks = [i for i, e in enumerate(evs) if e.kind == "UNLOCK"]
         bad = None
+        ordered = [i for i, e in enumerate(evs) if e.kind == "CALL" and q.short(e.a) in ("lower_bound", "upper_bound", "equal_range", "binary_search")]
+        if ordered and not finds:
+            # ordered-search idiom: the duplicate test is a binary search; insertion must keep the order (insert at the position found)
+            style["search"] = "ordered"
+            finds = ordered
+            ins = [i for i, e in enumerate(evs) if e.kind == "CALL" and q.short(e.a) in ("insert", "emplace") and e.c is not None and "callback_keys" in fmt(e.c)]
+            if len(ins) != 1 or [i for i, e in enumerate(evs) if e.kind == "CALL" and q.short(e.a) in ("push_back", "emplace_back") and e.c is not None and "callback_keys" in fmt(e.c)]:
+                rep.violation(rule, site(f) + " [ordered search]", "the duplicate test is a binary search but the key is not inserted at the position found (the order the search relies on is not maintained)", f["loc"], inst)
+                return
+            pushes = ins
+        elif finds:
+            style["search"] = "linear"
         if not loads or not backend or min(loads) > min(backend):
             bad = "the CREATED status is not checked before the backend registration"
         else:
@@ -121,7 +142,8 @@ def check_register(rep, db, f, inst):
             elif not locks or not (locks[0] < finds[0] and locks[0] < pushes[0]) or not any(u > pushes[0] for u in unlocks) or any(locks[0] < u < pushes[0] for u in unlocks):
                 bad = "duplicate test and key insertion are not both inside one callback_lock guard"
         if bad is None:
-            key_ins = (evs[pushes[0]].extra or {}).get("argvals", evs[pushes[0]].b)[0]
+            ins_args = (evs[pushes[0]].extra or {}).get("argvals", evs[pushes[0]].b)
+            key_ins = ins_args[1] if q.short(evs[pushes[0]].a) in ("insert", "emplace") and len(ins_args) > 1 else ins_args[0]
             fa = (evs[finds[0]].extra or {}).get("argvals", evs[finds[0]].b)
             key_find = fa[2] if len(fa) >= 3 else None
             fret = (evs[finds[0]].extra or {}).get("ret")
@@ -147,7 +169,7 @@ def check_register(rep, db, f, inst):
     rep.ok(rule, site(f), "status check, locked duplicate test + insertion, one key everywhere", inst)
 
 
-def check_unregister(rep, db, f, inst):
+def check_unregister(rep, db, f, inst, style):
     rule = "R-C13-unregister"
     try:
         ps = q.paths(db, f)
@@ -177,6 +199,18 @@ def check_unregister(rep, db, f, inst):
         locks = [i for i, e in enumerate(evs) if e.kind == "CALL" and q.short(e.a) in ("lock_guard", "unique_lock") and "callback_lock" in " ".join(fmt(a) for a in e.b)]
         unlocks = [i for i, e in enumerate(evs) if e.kind == "UNLOCK"]
         bad = None
+        pops = [i for i, e in enumerate(evs) if e.kind == "CALL" and q.short(e.a) in ("pop_back",) and e.c is not None and "callback_keys" in fmt(e.c)]
+        if pops and not erases:
+            # swap-with-last-and-pop removal: fine with a linear duplicate search, wrong with an ordered one
+            style["removal"] = "unordered"
+            style["removal_loc"] = f["loc"]
+            fnd = [i for i, e in enumerate(evs) if e.kind == "CALL" and q.short(e.a) in ("find", "lower_bound")]
+            if len(backend) == 1 and evs[backend[0]].b[0] == key and fnd and any(e.kind == "ASSUME" and e.extra.get("abort_check") for e in evs[fnd[0]:pops[0]]):
+                continue
+            rep.violation(rule, site(f), "swap-and-pop removal without an existence-checked search of the key", f["loc"], inst)
+            return
+        elif erases:
+            style["removal"] = "ordered"
         if len(backend) != 1 or evs[backend[0]].b[0] != key:
             bad = "backend unregistration is not called exactly once with the given key"
         elif len(erases) != 1 or not finds:
